@@ -518,6 +518,45 @@ fn dcheck(out: &mut Out, c: &DCase, da: &DAssets, judge_spends: bool) {
             None => out.line(&format!("J nopanic descriptor-satisfy {} PANIC", head), "ok"),
         }
     }
+    // (2b) the library's STOCK Satisfier impls as the carrier of the caller's assets: the tuple
+    //      (key -> signature map, nSequence, nLockTime).  Only where that tuple can express the
+    //      asset set exactly: ECDSA descriptors without hashes and raw key hashes, all locks of the
+    //      script that the caller holds implied by the transaction's nSequence / nLockTime and no
+    //      other.  Twice: with the transaction's own values, and with nSequence / nLockTime ONE
+    //      LATER (same unit) when no lock of the script sits in between - a later transaction
+    //      implies the same locks.
+    if c.wrap != "tr" && da.pre.is_empty() && da.rawpk.is_empty() {
+        let sat = &shared;
+        let refs: Vec<&Node> = c.leaves.iter().collect();
+        let full = DAssets::full(&refs);
+        if full.pre.is_empty() {
+            let mut m: std::collections::HashMap<PublicKey, miniscript::bitcoin::ecdsa::Signature> = std::collections::HashMap::new();
+            for (id, sig) in &sat.ecdsa { for kid in [*id, *id + 100] { m.insert(ast::full_key(kid), *sig); } }
+            let seq0 = sat.tx.input[0].sequence;
+            let lt0 = sat.tx.lock_time;
+            // what the tuple implies, computed with the SPEC's rules (same unit, value <=), must be `da`'s locks
+            let implied_older = |sq: u32, n: u32| sq & (1 << 31) == 0 && (sq & (1 << 22)) == (n & (1 << 22)) && (n & 0xffff) <= (sq & 0xffff);
+            let implied_after = |lt: u32, n: u32| (lt < 500_000_000) == (n < 500_000_000) && n <= lt;
+            let exact = |sq: u32, lt: u32| full.older.iter().all(|n| implied_older(sq, *n) == da.older.contains(n))
+                && full.after.iter().all(|n| implied_after(lt, *n) == da.after.contains(n)) && (full.after.is_empty() || sq != 0xffff_ffff);
+            let mut variants: Vec<(&str, u32, u32)> = vec![("@stock", seq0.to_consensus_u32(), lt0.to_consensus_u32())];
+            if !full.older.is_empty() && seq0.to_consensus_u32() & 0xffff < 0xffff { variants.push(("@stock-seq+1", seq0.to_consensus_u32() + 1, lt0.to_consensus_u32())); }
+            if !full.after.is_empty() { variants.push(("@stock-lt+1", seq0.to_consensus_u32(), lt0.to_consensus_u32() + 1)); }
+            for (tag, sq, lt) in variants {
+                if !exact(sq, lt) { out.count("stock satisfier route: tuple cannot express the asset set"); continue; }
+                let stock = (&m, miniscript::bitcoin::Sequence::from_consensus(sq), miniscript::bitcoin::absolute::LockTime::from_consensus(lt));
+                match catch(|| (c.desc.get_satisfaction_mall(&stock).is_ok(), c.desc.get_satisfaction(&stock).is_ok(),
+                                c.desc.clone().into_plan_mall(&stock).is_ok(), c.desc.clone().into_plan(&stock).is_ok())) {
+                    Some((mm, nn, pm, pn)) => {
+                        out.count(&format!("stock satisfier route {}", tag));
+                        out.line(&format!("J {} {}{}{} {} {} {}", op, c.wrap, c.route, tag, tail, sn(mm), sn(nn)), "ok");
+                        out.line(&format!("J {} {}{}{}-plan {} {} {}", op, c.wrap, c.route, tag, tail, sn(pm), sn(pn)), "ok");
+                    }
+                    None => out.line(&format!("J nopanic stock-satisfier-route {} {} PANIC", tag, head), "ok"),
+                }
+            }
+        }
+    }
     // (3) a FRESH object built by the string route (`to_string` / `from_str`): no cached spend
     //     info, nothing called on it before the satisfier
     {
